@@ -202,6 +202,74 @@ def worker(items, extra, progress):
     return bad, dict(hist)
 
 
+def unpack_case(rng, advtree, nodes, TreeCleaner):
+    """a table (any mix of captions and rows of 0-2 cells) under an article, taken apart by the real
+    `_wrap_or_append_cell_items` / `_replace_child_based_on_div_wrapper`.  -> (request line, real reply, None | violation text)"""
+    wrap = rng.random() < 0.5
+    art = advtree.Article()
+    table = advtree.Table()
+    art.append_child(table)
+    k = [0]
+
+    def leafs(parent, n):
+        ids = []
+        for _ in range(n):
+            node = advtree.Text("w%d" % k[0]) if rng.random() < 0.6 else advtree.Paragraph()
+            node._vid = k[0]
+            ids.append(k[0])
+            k[0] += 1
+            parent.append_child(node)
+        return ids
+
+    spec = []
+    for _ in range(rng.randint(0, 4)):
+        if rng.random() < 0.3:
+            cap = nodes.Caption()
+            spec.append(("C", leafs(cap, rng.randint(0, 3))))
+            table.append_child(cap)
+        else:
+            row = advtree.Row()
+            cells = []
+            for _ in range(rng.choice([1, 1, 1, 2, 0])):
+                cell = advtree.Cell()
+                cells.append(leafs(cell, rng.randint(0, 3)))
+                row.append_child(cell)
+            spec.append(("R", cells))
+            table.append_child(row)
+    fields = []
+    for kind, x in spec:
+        if kind == "C":
+            fields.append("C " + " ".join(map(str, x)))
+        else:
+            fields.append("R")
+            fields += ["c " + " ".join(map(str, c)) for c in x]
+    req = "unpack %d;%s" % (wrap, ";".join(fields))
+    tc = TreeCleaner(art, save_reports=False)
+    divs, its = [], []
+    tc._wrap_or_append_cell_items(table, wrap, divs, its)
+    tc._replace_child_based_on_div_wrapper(wrap, art, table, divs, its)
+    real = " ".join(("D( " + " ".join(str(x._vid) for x in ch.children) + " )") if type(ch).__name__ == "Div" else str(getattr(ch, "_vid", type(ch).__name__))
+                    for ch in art.children)
+    why = None
+    flat = [i for kind, x in spec for i in (x if kind == "C" else [j for c in x for j in c])]
+    got = []
+    for ch in art.children:
+        if ch.parent is not art:
+            why = "a node that replaced the table has a parent link to something else"
+        if type(ch).__name__ == "Div":
+            for x in ch.children:
+                got.append(getattr(x, "_vid", type(x).__name__))
+                if x.parent is not ch:
+                    why = "a child of a new Div has a parent link to something else"
+        elif type(ch).__name__ in ("Row", "Cell", "Caption"):
+            why = f"a {type(ch).__name__} is left outside any table"
+        else:
+            got.append(getattr(ch, "_vid", type(ch).__name__))
+    if why is None and got != flat:
+        why = f"the table's content {flat} became {got}"
+    return req, real, why, spec
+
+
 def split_worker(items, extra, progress):
     """the real treecleanerhelper.split_row vs Model.splitRow: rows of 1-4 cells with 0-6 children of random estimated height."""
     import logging
@@ -222,6 +290,18 @@ def split_worker(items, extra, progress):
     reqs, meta, viol, hist = [], [], [], Counter()
     for i, seed in enumerate(items):
         progress(i)
+        if isinstance(seed, (tuple, list)):       # ("unpack", seed): a one-column table taken apart
+            try:
+                req, real, why, spec = unpack_case(random.Random(seed[1]), advtree, nodes, TreeCleaner)
+            except Exception as e:  # noqa: BLE001
+                viol.append({"why": f"taking a one-column table apart raised {type(e).__name__}: {e}", "text": repr(seed)})
+                continue
+            if why:
+                viol.append({"why": "transform_single_col_tables (unpacking): " + why, "text": repr(spec)})
+            hist["tables-unpacked"] += 1
+            reqs.append(req)
+            meta.append((spec, real))
+            continue
         rng = random.Random(seed)
         row = advtree.Row()
         k = 0
@@ -256,7 +336,7 @@ def split_worker(items, extra, progress):
     diffs = []
     for (want, real), o in zip(meta, Driver("splitrow").ask(reqs)):
         if real.split() != o.split():
-            diffs.append({"stream": "split_row", "cells": want, "impl": real, "model": o})
+            diffs.append({"stream": "unpack (one-column table)" if want and isinstance(want[0], tuple) else "split_row", "cells": want, "impl": real, "model": o})
     return diffs, viol, dict(hist)
 
 
@@ -293,6 +373,9 @@ def run(chk: common.Check):
         "tree model (Model/Tree.lean) tied to advtree's primitives by the C05 correspondence",
         "hand-written model lean/MwVerif/Model/SplitRow.lean of treecleanerhelper.split_row (heights abstract: get_node_height is run for real "
         "and its values, scaled to integers exactly, are given to the model), tied by correspondence on random rows",
+        "hand-written model lean/MwVerif/Model/SingleCol.lean of how transform_single_col_tables takes a table apart (_wrap_or_append_cell_items, "
+        "_replace_child_based_on_div_wrapper; the decision WHETHER to take it apart is not modelled), tied by correspondence on random tables "
+        "of captions and rows",
         "NOT a theorem: that each pass dissolves/removes only textless nodes and moves nodes without reordering text - checked by the "
         "word/ancestor oracle on the real cleaner over the document grammar",
         "harness/doc_common.py (generator, reader of sections/lists/references/cells), harness/clean_common.py (pass driver)",
@@ -320,6 +403,7 @@ def run(chk: common.Check):
         "histogram": dict(hist),
     })
     sitems = [chk.seed * 10_000_000 + 7_500_000 + i for i in range(20000 if tier == "thorough" else 3000)]
+    sitems += [("unpack", chk.seed * 10_000_000 + 7_800_000 + i) for i in range(20000 if tier == "thorough" else 3000)]
     r3, c3 = guard.guarded_run(str(chk.mkscratch()), "harness.c07:split_worker", sitems, nproc=8, hard_timeout=120)
     sdiffs, shist = [], Counter()
     for d, v, h in r3:
@@ -329,7 +413,7 @@ def run(chk: common.Check):
             bad.append({"text": x["text"], "why": x["why"]})
     for item, kind, detail in c3:
         bad.append({"seed": item, "text": "", "why": f"{kind}: {detail} (split_row)"})
-    chk.coverage.update({"traces_validated_against_impl": shist.get("rows-split", 0), "correspondence_differences": len(sdiffs),
+    chk.coverage.update({"traces_validated_against_impl": shist.get("rows-split", 0) + shist.get("tables-unpacked", 0), "correspondence_differences": len(sdiffs),
                          "split_row_histogram": dict(shist)})
     corpus = common.ROOT / "corpus" / "C07" / "known.json"
     if corpus.exists():
